@@ -4,6 +4,7 @@ import G3D.Proofs.SortValid
 import G3D.Proofs.SortCycle
 import G3D.Proofs.Judge
 import G3D.Proofs.CtorQueries
+import G3D.Proofs.Euler5
 /-! # C09 — polygon / polyhedron construction is order-independent and canonical  (partial)
     Proved: what a successful construction guarantees (vertices ⊆ input, coplanar, centre = mean of the distinct input;
     polyhedron: every stored face oriented away from the centre, Euler's formula, centre = vertex mean, centre inside),
@@ -91,5 +92,18 @@ theorem polyhedron_face_order_independent (input1 input2 : List Polygon) (hp : L
       B1.edges.length = B2.edges.length ∧ (∀ x, B1.contains x = B2.contains x) ∧ B1.volume = B2.volume := by
   obtain ⟨B2, a, b, _, _, e, f, _, _, i, j⟩ := Polyhedron.mk?_perm input1 input2 hp B1 h1
   exact ⟨B2, a, b, e, f, i, j⟩
+
+
+/-! ### the constructor ACCEPTS: Euler's formula is proved, not assumed -/
+/-- the faces of a Valid body without coplanar neighbouring faces (directed edges pairwise distinct), in ANY order, with ANY
+    start vertex and EITHER orientation: the constructor succeeds and returns a Valid body with outward faces, the same
+    vertices, V − E + F = 2 and centre = vertex mean -/
+theorem polyhedron_constructor_accepts (B0 : Polyhedron) (hV : B0.Valid) (hloc : B0.FaceLocal)
+    (hnd : (dirEdges (B0.faces.map (·.pts))).Nodup) (F input : List Polygon)
+    (hperm : List.Perm F B0.faces) (hrel : List.Forall₂ Reoriented F input) :
+    ∃ B, Polyhedron.mk? input = .ok B ∧ B.Valid ∧ B.center = meanV B.verts ∧ List.Forall₂ OutwardCopy F B.faces ∧
+      (∀ f ∈ B.faces, f.side B.center < 0) ∧ List.Perm B.verts (collectVerts B0.faces) ∧
+      ((B.verts.length : Int) - B.edges.length + B.faces.length = 2) :=
+  polyhedron_orientation_independent B0 hV F input hperm hrel (Polyhedron.euler B0 hV hloc hnd)
 
 end G3D.Props.C09
